@@ -126,7 +126,8 @@ pub fn number(input: ParseString) -> ParseResult<Number> {
 // complex-number := real-number, ("i"|"j")? | (("+"|"-"), real-number, ("i"|"j")) ;
 pub fn complex_number(input: ParseString) -> ParseResult<C64Node> {
   let (input, real_num) = untyped_real_number(input)?;
-  if let Ok((input, _)) = alt((tag("i"), tag("j")))(input.clone()) {
+  // the imaginary unit must end the literal: `15i16` is an integer with a kind suffix, not `15i` followed by `16`
+  if let Ok((input, _)) = nom::sequence::terminated(alt((tag("i"), tag("j"))), is_not(alphanumeric))(input.clone()) {
     return Ok((
       input,
       C64Node {
@@ -136,7 +137,7 @@ pub fn complex_number(input: ParseString) -> ParseResult<C64Node> {
     ));
   }
   if let Ok((input, (sign, imaginary_num, _))) = 
-    nom_tuple((alt((plus, dash)), untyped_real_number, alt((tag("i"), tag("j")))))(input.clone())
+    nom_tuple((alt((plus, dash)), untyped_real_number, nom::sequence::terminated(alt((tag("i"), tag("j"))), is_not(alphanumeric))))(input.clone())
   {
     let imaginary = match sign.kind {
       TokenKind::Plus => imaginary_num,
